@@ -59,16 +59,32 @@ def _holders():
 
 
 def snapshot():
-    global _saved
+    global _saved, _holder_list, _nvars, _caches
     _saved = []
-    for h in _holders():
-        for k, v in list(vars(h).items()):
+    _holder_list = list(_holders())
+    _nvars = {}
+    _caches = []
+    for h in _holder_list:
+        items = list(vars(h).items())
+        _nvars[id(h)] = len(items)
+        for k, v in items:
             if k.startswith('__'):
                 continue
             if isinstance(v, CONTAINERS):
                 _saved.append((h, k, v, type(v)(v)))
             elif isinstance(v, SCALARS):
                 _saved.append((h, k, None, v))
+            else:
+                # functools caches live inside the function object
+                for f in (v, getattr(v, '__func__', None)):
+                    cc = getattr(f, 'cache_clear', None)
+                    if cc is not None and callable(cc):
+                        _caches.append(cc)
+
+
+_holder_list = []
+_nvars = {}
+_caches = []
 
 
 def restore():
@@ -76,52 +92,49 @@ def restore():
         return
     for h, k, obj, val in _saved:
         try:
+            d = vars(h)
             if obj is not None:
-                cur = vars(h).get(k)
-                if cur is not obj:
+                if d.get(k) is not obj:
                     setattr(h, k, obj)
-                if isinstance(obj, dict):
-                    if obj != val or len(obj) != len(val):
-                        obj.clear()
-                        obj.update(val)
-                elif isinstance(obj, list):
-                    if obj != val:
+                if obj != val:
+                    if isinstance(obj, list):
                         obj[:] = val
-                else:
-                    if obj != val:
+                    else:
                         obj.clear()
                         obj.update(val)
             else:
-                if vars(h).get(k, val) is not val and vars(h).get(k) != val:
-                    setattr(h, k, val)
-                elif k not in vars(h):
+                cur = d.get(k, _MISSING)
+                if cur is not val and cur != val:
                     setattr(h, k, val)
         except (AttributeError, TypeError):
             pass
-    # functools caches live inside the function object
-    for h in _holders():
-        for k, v in list(vars(h).items()):
-            cc = getattr(v, 'cache_clear', None)
-            if cc is not None and callable(cc):
-                try:
-                    cc()
-                except Exception:
-                    pass
-            f = getattr(v, '__func__', None)      # static/class methods
-            cc = getattr(f, 'cache_clear', None)
-            if cc is not None and callable(cc):
-                try:
-                    cc()
-                except Exception:
-                    pass
+    for cc in _caches:
+        try:
+            cc()
+        except Exception:
+            pass
     # state added at run time under new names (a cache created lazily)
-    seen = {(id(h), k) for h, k, _, _ in _saved}
-    for h in _holders():
-        for k, v in list(vars(h).items()):
-            if k.startswith('__') or (id(h), k) in seen:
+    for h in _holder_list:
+        d = vars(h)
+        if len(d) == _nvars.get(id(h)):
+            continue
+        known = {k for hh, k, _, _ in _saved if hh is h}
+        for k, v in list(d.items()):
+            if k.startswith('__') or k in known:
                 continue
             if isinstance(v, CONTAINERS) and v:
                 try:
                     v.clear()
                 except Exception:
                     pass
+    # modules imported during the run
+    for name in list(sys.modules):
+        if (name == 'tdda' or name.startswith('tdda.')) and \
+                sys.modules[name] is not None and \
+                id(sys.modules[name]) not in _nvars:
+            mod = sys.modules[name]
+            _holder_list.append(mod)
+            _nvars[id(mod)] = -1
+
+
+_MISSING = object()
